@@ -281,3 +281,31 @@ void vf_harness(void) {
     functions=['Date::calc', 'yearFromTime (floating entry)'],
 )
 UNITS += [calc_whole]
+
+# The tail of Date::calc (time of day and weekday) as written, in floating point, for EVERY day of years 0001..9999 and every integer second of the day.
+# The cut is the statement range from the rounding bias to the weekday fix-up, so it does not depend on how the expressions in between are spelled.
+calc_tail = Unit(
+    'Date_calc_tail_float', 'C19',
+    cuts=[Cut('tail', DC, r'(t \+= 0\.0005;[\s\S]*?date\.weekDay \+= 7;)', kind='expr')],
+    text=PRE + r'''
+typedef struct DateData { int year, month, day, hours, minutes, seconds, weekDay; } DateData;
+DateData date;
+int nondet_int(void);
+void vf_harness(void) {
+  int day = nondet_int(), sec = nondet_int();
+  __CPROVER_assume(DAY_LO <= day && day <= DAY_HI && 0 <= sec && sec < 86400);
+  double t = (double)day * 86400.0 + (double)sec;
+  @@tail@@
+  __CPROVER_assert(date.weekDay == (((day + 4) % 7) + 7) % 7, "weekday of the day containing t, for every day of years 0001..9999 (1970-01-01 was a Thursday)");
+#ifdef HMS
+  __CPROVER_assert(date.hours == sec / 3600 && date.minutes == (sec / 60) % 60 && date.seconds == sec % 60, "hours/minutes/seconds are those of the second within the day");
+#endif
+  VF_CANARY();
+}
+''',
+    entry=None, floor=1, expect=['assertion'], timeout=1500, tier='thorough',
+    variants={'WD': ['-DDAY_LO=SPEC_DAY_MIN', '-DDAY_HI=SPEC_DAY_MAX']},
+    desc='time-of-day/weekday tail of Date::calc in floating point (t/86400, floor, truncation as written) for every day of years 0001..9999 and every integer second',
+    functions=['Date::calc (time of day, weekDay)'],
+)
+UNITS += [calc_tail]
